@@ -284,6 +284,46 @@ def mutation_order_monitor(ctx, res, case, impl_line, model_line, spec):
                                                   what=f'superseded version {x[2:]} retired before the new version was stored under current/'))
                 return
 
+def c13_l1_monitor(ctx, res, case, impl_line, model_line, spec):
+    """kv level: a read-only open sends no PUT and no DELETE (the harness counts every such request
+    of the open, node objects included: token RO:<n>).  On the implementation alone."""
+    for j, seg in enumerate(impl_line.split(' ; ')):
+        for t in seg.split():
+            if t.startswith('RO:') and t != 'RO:0':
+                res.property_failures.append(dict(suite=res.name, case=case, op_index=j, impl=seg.strip()[:600],
+                                                  what=f'a read-only open sent {t[3:]} PUT / DELETE request(s) to the bucket'))
+                return
+
+def _mlog(tokens):
+    if 'M' not in tokens:
+        return None
+    i = tokens.index('M')
+    if i + 1 >= len(tokens) or tokens[i + 1] not in ('[', '{'):
+        return None
+    log = tokens[i + 2:]
+    for cl in (']', '}'):
+        if cl in log:
+            log = log[:log.index(cl)]
+            break
+    return log
+
+def c16_l1_monitor(ctx, res, case, impl_line, model_line, spec):
+    """"committing when nothing changed writes nothing": an open or commit for which the proved
+    model sends no PUT / DELETE of a version (nothing changed: the handle is one stored version)
+    and succeeds, while the implementation, succeeding too, stores or retires versions"""
+    xs = [x.split() for x in impl_line.split(' ; ')]
+    ys = [y.split() for y in model_line.split(' ; ')]
+    for j, (x, y) in enumerate(zip(xs, ys)):
+        lx, ly = _mlog(x), _mlog(y)
+        if lx is None or ly is None or x[:1] != ['ok'] or y[:1] != ['ok'] or x[1:2] != y[1:2]:
+            continue
+        vx = [t for t in lx if t[:2] in ('Pc', 'Pm', 'Dc')]
+        vy = [t for t in ly if t[:2] in ('Pc', 'Pm', 'Dc')]
+        if vx and not vy:
+            res.property_failures.append(dict(suite=res.name, case=case, op_index=j, impl=' '.join(x)[:600], spec=' '.join(y)[:600],
+                                              what='an open / commit that changed nothing wrote to the bucket: ' + ' '.join(vx)[:200]))
+            return
+
 def chain(*mons):
     def mon(*a):
         for m in mons:
@@ -388,7 +428,8 @@ register('C17', [l0_suite(['lww'], monitor=l0_determined('the merged value is no
 register('C01', [l0_suite(['merge_rows', 'merge_values', 'merge_laws'], monitor=c01_laws_monitor),
                  l1_suite(['rows'], monitor=c01_two_orders_monitor),
                  l1_suite(['rows'], name='l1f', quick=300,
-                          monitor=determined_result_monitor('a reader that merges the committed versions (after a storage fault has cleared) sees other rows than the merge of those versions'))],
+                          monitor=determined_result_monitor('a reader that merges the committed versions (after a storage fault has cleared) sees other rows than the merge of those versions')),
+                 lambda ctx: l2_suite('multi', native=False, extra_monitor=c02_monitor, name='l2-multi', quick=60, thorough=1500)(ctx)],
          ['all writers of a prefix declare the same column list'])
 
 # ---------------------------------------------------------------- L2 (SQL)
@@ -505,6 +546,7 @@ def l2_suite(profile, quick=60, thorough=1500, native=True, name=None, extra_mon
                     break
             # --- model correspondence, op by op
             excused_from = None
+            vac = _unset
             def phantom_excuse(c, j, x, y):
                 try:
                     if not rolled_back_insert_excuse(c, j, x, y):
@@ -581,6 +623,16 @@ def l2_suite(profile, quick=60, thorough=1500, native=True, name=None, extra_mon
                 if phantom_excuse(c, j + 1, s3c, nat):
                     excused_from = j + 1
                     break
+                try:
+                    if vac is _unset:
+                        vac = vacuum_resurrection(iops)
+                    if resurrection_excuse(c, vac, j + 1, s3c, nat):
+                        # recorded under C09 (finding F-C09-1, reported there by the vacuum monitor)
+                        res.stats_excused = getattr(res, 'stats_excused', 0) + 1
+                        excused_from = j + 1
+                        break
+                except (ValueError, IndexError):
+                    pass
                 m = dict(suite=res.name, case=c, op_index=j + 1, impl=' '.join(s3c)[:1500], spec=' '.join(nat)[:1500],
                          what='s3db table and native SQLite table disagree on the same statement')
                 if desc_sparse_excuse(c, s3c, mask_empty_text(nat)) or desc_sparse_excuse(c, s3c, nat):
@@ -650,6 +702,49 @@ def sql_ops_full(case):
         else: raise ValueError('sql_ops_full: ' + k)
         out.append(dict(kind=k, conn=c, key=key, skipped=sk, limit=limit if k == 'sel' else 0))
     return out
+
+_unset = object()
+
+def vacuum_resurrection(iops):
+    """finding F-C09-1 as the harness observes it at a vacuum (VF0 = a connection opened just before
+    the vacuum, VF = one opened just after, VB = the vacuuming connection): every row that differs
+    was invisible before, to both, and is visible afterwards (its delete marker was purged while an
+    older write of it is still in a version under current/).  -> (segment index, resurrected keys)"""
+    for j, toks in enumerate(iops):
+        if 'VB' not in toks or 'VA' not in toks or 'VF0' not in toks or 'VF' not in toks:
+            continue
+        vb, va, vf0, vf = toks.index('VB'), toks.index('VA'), toks.index('VF0'), toks.index('VF')
+        rw = toks.index('RW') if 'RW' in toks else len(toks)
+        before, fresh0, fresh = toks[vb + 1:va], toks[vf0 + 1:vf], toks[vf + 1:rw]
+        if fresh == fresh0:
+            continue
+        r0, r1, rb = rows_by_key(fresh0), rows_by_key(fresh), rows_by_key(before)
+        if r0 is None or r1 is None or rb is None:
+            return None
+        diff = [k for k in set(r0) | set(r1) if r0.get(k) != r1.get(k)]
+        if diff and all(k not in r0 and k in r1 and k not in rb for k in diff):
+            return j, set(diff)
+        return None
+    return None
+
+def resurrection_excuse(case, vac, j, got, want):
+    """after a vacuum with the shape of finding F-C09-1 (see vacuum_resurrection): the first
+    divergence from the native table concerns only the resurrected keys — a SELECT that returns the
+    expected rows plus resurrected ones, or a statement addressing a resurrected key"""
+    if vac is None or j <= vac[0]:
+        return False
+    keys = vac[1]
+    got, want = mask_empty_text(got), mask_empty_text(want)
+    if got[:1] == want[:1] and got[:1] and got[0] in ('SA', 'SD', 'SO') and got[1:2] == ['ok'] and want[1:2] == ['ok']:
+        gr, wr = rows_by_key(got[1:]), rows_by_key(want[1:])
+        if gr is None or wr is None:
+            return False
+        d = [k for k in set(gr) | set(wr) if gr.get(k) != wr.get(k)]
+        return bool(d) and all(k in keys and k in gr and k not in wr for k in d)
+    ops = sql_ops_full(case)
+    if 1 <= j <= len(ops) and ops[j - 1]['key'] is not None:
+        return tuple(ops[j - 1]['key']) in {tuple(k) if not isinstance(k, tuple) else k for k in keys}
+    return False
 
 def rolled_back_insert_excuse(case, j, got, want):
     """finding F-C05-1 (mast links a new leaf into a node shared with the pre-transaction
@@ -805,7 +900,9 @@ def c02_monitor(ctx, res, case, impl_line, model_line, spec):
             #           any of its cells may differ (the UPDATE stamped the row's insert/delete time);
             #  F-C02-1: a cell (k, c) may differ when some UPDATE of k assigned other columns but not c
             #           (the unassigned cell was re-written with that statement's time).
-            gr, wr = rows_by_key(got[1:]) if got[:1] in (['SA'], ['SD']) else None, rows_by_key(want[1:]) if want[:1] in (['SA'], ['SD']) else None
+            # (an empty TEXT cell elsewhere in the same result reads as NULL, finding F-C08-1: masked)
+            wantm = mask_empty_text(want)
+            gr, wr = rows_by_key(got[1:]) if got[:1] in (['SA'], ['SD']) else None, rows_by_key(wantm[1:]) if wantm[:1] in (['SA'], ['SD']) else None
             if gr is not None and wr is not None:
                 used = set()
                 explained = True
@@ -956,7 +1053,9 @@ def l1c_suite(quick=120, thorough=3000):
     return f
 
 register('C04', [l1c_suite(), l2_suite('tx', name='l2-tx', quick=40, thorough=1000,
-                                       determined='an acknowledged COMMIT is not what a later open shows')], ['a crash is the loss of every request after some point of the sequential request stream; node PUTs of one flush are explored in the order they were observed'])
+                                       determined='an acknowledged COMMIT is not what a later open shows'),
+                 lambda ctx: l2_suite('faults', name='l2-faults', quick=80, thorough=1500,
+                                      determined='after a COMMIT that failed (or a crash-like storage fault) a connection reads neither the state before nor the state after the transaction')(ctx)], ['a crash is the loss of every request after some point of the sequential request stream; node PUTs of one flush are explored in the order they were observed'])
 
 # ---------------------------------------------------------------- more L2 monitors
 def l2_ops(impl_line):
@@ -1121,7 +1220,7 @@ def c15_monitor(ctx, res, case, impl_line, model_line, spec):
                 return
 
 register('C13', [l2_suite('ro', native=False, extra_monitor=c13_monitor, name='l2-ro',
-                          determined='a statement on (or next to) a read-only table returns something else than the committed rows: a refused write changed what is visible'), l1_suite(['rows', 'plain'])],
+                          determined='a statement on (or next to) a read-only table returns something else than the committed rows: a refused write changed what is visible'), l1_suite(['rows', 'plain'], monitor=c13_l1_monitor)],
          ['the request log of the HTTP proxy in front of gofakes3 sees every storage request'])
 register('C09', [l2_suite('vacuum', native=False, extra_monitor=c09_monitor, name='l2-vacuum'),
                  l1_suite(['rows', 'plain'], monitor=chain(c09_l1_monitor, determined_result_monitor('after deleting history / vacuum an operation returns something else than the retained contents'))),
@@ -1129,26 +1228,32 @@ register('C09', [l2_suite('vacuum', native=False, extra_monitor=c09_monitor, nam
                  l2_suite('faults', name='l2-faults', quick=80, thorough=1500, extra_monitor=c09_monitor)],
          ['cutoffs are far from the wall clock (version creation times are not controlled at SQL level)'])
 register('C10', [l1_suite(['rows', 'plain'], monitor=chain(c09_l1_monitor, determined_result_monitor('what remains after a vacuum with this cutoff is not what the cutoff rule fixes'))),
-                 l2_suite('vacuum', native=False, extra_monitor=c09_monitor, name='l2-vacuum')],
+                 l2_suite('vacuum', native=False, extra_monitor=c09_monitor, name='l2-vacuum'),
+                 l1_suite(['plain', 'rows'], name='l1f', quick=150, monitor=chain(c09_l1_monitor, determined_result_monitor('after a history deletion interrupted by a storage fault and retried, the bucket does not hold exactly what the cutoff rule retains (version records or node objects left behind, or retained data lost)'))),],
          ['version creation times are passed explicitly at the kv level'])
 register('C15', [l2_suite('conn', native=False, extra_monitor=lambda *a: (c15_monitor(*a), c02_monitor(*a)), name='l2-conn'),
                  l0_suite(['merge_rows', 'merge_values'])],
          ['write times have second granularity (SQLiteTimeFormat)'])
 register('C05', [l2_suite('tx', name='l2-tx'), l2_suite('multi', native=False, extra_monitor=c02_monitor, name='l2-multi'),
                  l2_suite('faults', name='l2-faults', quick=80, thorough=1500,
-                          determined='a statement or commit that failed left something behind (or one that succeeded is not seen): another connection reads other rows than the statements that succeeded explain')],
+                          determined='a statement or commit that failed left something behind (or one that succeeded is not seen): another connection reads other rows than the statements that succeeded explain'),
+                 l2_suite('conn', native=False, extra_monitor=lambda *a: (c15_monitor(*a), c02_monitor(*a)), name='l2-conn', quick=60, thorough=1500,
+                          determined='the writes of one transaction do not carry one write time (connection attributes read or set inside the transaction changed it)')],
          ['SQLite calls xBegin once per transaction before the first xUpdate'])
 register('C12', [l2_suite('changes', native=False, name='l2-changes', determined='s3db_changes / a read of a version returns other rows than the two versions fix'),
-                 l1_suite(['rows'], name='l1f', quick=120, monitor=determined_result_monitor('a diff / open under storage faults neither fails nor returns the complete answer'))],
+                 l1_suite(['rows', 'plain'], name='l1f', quick=300, monitor=determined_result_monitor('a diff / open under storage faults neither fails nor returns the complete answer'))],
          ['storage faults around the two version opens of a diff are injected at the kv level (L1); the SQL level runs fault-free'])
 register('C11', [l2_suite('changes', native=False, name='l2-changes', determined='reading a recorded version list returns other rows than were visible when it was recorded'),
                  l2_suite('tx', name='l2-tx', quick=40, thorough=1000,
                           determined='s3db_version() answers although the connection sees uncommitted rows that no version holds (or refuses / differs where a version identifies the visible rows)'),
+                 lambda ctx: l2_suite('faults', name='l2-faults', quick=80, thorough=1500,
+                                      determined='after a failed statement or COMMIT the rows a connection sees are not the rows of the versions it reports')(ctx),
                  l1_suite(['rows', 'plain'], monitor=chain(mutation_order_monitor, determined_result_monitor('an open restricted to recorded versions (or a later read) returns other entries than those versions hold')))], [])
 register('C16', [l2_suite('multi', native=False, extra_monitor=c02_monitor, name='l2-multi'), l0_suite(['nodecodec']), l1_suite(['rows']),
                  l2_suite('vacuum', native=False, extra_monitor=c09_monitor, name='l2-vacuum', quick=40, thorough=1000),
                  l2_suite('faults', name='l2-faults', quick=80, thorough=1500,
-                          determined='a fresh reader does not read exactly what the acknowledged commits wrote')], [])
+                          determined='a fresh reader does not read exactly what the acknowledged commits wrote'),
+                 l1_suite(['rows', 'plain'], name='l1f', quick=150, monitor=chain(c16_l1_monitor, mutation_order_monitor, determined_result_monitor('an open, commit or read under storage faults returns something else than the committed versions hold')))], [])
 def c14_monitor(ctx, res, case, impl_line, model_line, spec):
     """an acknowledged commit whose contents a later open cannot find (the oracle marks the
     operation: LIE:<op index>; the implementation agreed with the model on that operation)"""
@@ -1297,7 +1402,8 @@ def c20_suite(quick=300, thorough=8000):
 register('C19', [l2_suite('threads', native=True, name='l2-threads', level='l2t', binary='harness-race', quick=48, thorough=1200,
                           extra_monitor=lambda *a: (c15_monitor(*a), c02_monitor(*a))),
                  l2_suite('cachemix', native=False, name='l2-cachemix', quick=12, thorough=300, extra_monitor=c09_monitor,
-                          determined='connections of one process on one prefix, some with a node cache: a connection reads other rows than the statements explain (cross-talk through process-wide state)')],
+                          determined='connections of one process on one prefix, some with a node cache: a connection reads other rows than the statements explain (cross-talk through process-wide state)'),
+                 lambda ctx: l1s_suite()(ctx)],
          ['every world (its connections, tables, bucket) is independent of the others; only process-wide state is shared'])
 register('C20', [c20_suite()], ['the lexical level (regular expressions, quoting, case folding) is exercised through rendering, not modelled; SQLite\'s own parsing of the declared CREATE TABLE text is observed through PRAGMA table_info'])
 
